@@ -92,10 +92,17 @@ def reproduced(p, q, model, canonical, what):
     return None
 
 
-HOWS = [f"pickle{k}" for k in range(pickle.HIGHEST_PROTOCOL + 1)] + ["copy.copy", "copy.deepcopy", "method.copy"]
+HOWS = [f"pickle{k}" for k in range(pickle.HIGHEST_PROTOCOL + 1)] + ["copy.copy", "copy.deepcopy", "method.copy"] + \
+    (["pickle5.out_of_band_readonly", "pickle5.out_of_band_writable"] if pickle.HIGHEST_PROTOCOL >= 5 else [])
 
 
 def _reproduce(p, how):
+    if how.startswith("pickle5.out_of_band"):
+        # protocol 5 with the array data travelling out of band; handed back as immutable bytes or as writable bytearrays
+        bufs = []
+        data = pickle.dumps(p, protocol=5, buffer_callback=bufs.append)
+        back = [bytes(b.raw()) if how.endswith("readonly") else bytearray(b.raw()) for b in bufs]
+        return pickle.loads(data, buffers=back)
     if how.startswith("pickle"):
         return pickle.loads(pickle.dumps(p, protocol=int(how[6:])))
     return {"copy.copy": copy.copy, "copy.deepcopy": copy.deepcopy, "method.copy": lambda x: x.copy()}[how](p)
@@ -195,7 +202,7 @@ def repro_check(inp):
 
 
 check("C13", "pickle_copy.exact", gen_repro, functions=("numpoly.ndpoly.__reduce__", "numpoly.polynomial_from_attributes", "numpoly.ndpoly.copy"),
-      note=f"bounded: pickle protocols 0..{pickle.HIGHEST_PROTOCOL}, copy.copy, copy.deepcopy, .copy(); 10 shapes of 0-3 dimensions, 1-3 terms, "
+      note=f"bounded: pickle protocols 0..{pickle.HIGHEST_PROTOCOL} (protocol 5 also with out-of-band buffers given back read-only / writable), copy.copy, copy.deepcopy, .copy(); 10 shapes of 0-3 dimensions, 1-3 terms, "
            "<=3 names from q0,q1,q2,q10, exponents<=3, dtypes int64/int32/uint8/bool/float64/float32/complex128; canonical inputs: shape, "
            "dtype, names, exponents, coefficients identical; inputs storing all-zero terms (1 of 3, 1 of 4, 2 of 5, 1 of 2, 3 of 4, 3 of 6 "
            "terms zero via retain_coefficients=True, or the first result of align_polynomials/align_exponents against a second polynomial): "
@@ -230,6 +237,8 @@ def _io_options(rng, dtype, plain_default=0.4):
 
 def _load_kw(o):
     kw = {"comments": o["comments"]} if "comments" in o else {}
+    if "load_dtype" in o:
+        kw["dtype"] = numpy.dtype(o["load_dtype"])
     if o.get("delimiter", " ").strip():         # ' ' and tab: numpy's default white-space splitting; ', ' -> ','
         kw["delimiter"] = o["delimiter"].strip()
     return kw
@@ -272,6 +281,14 @@ def gen_text(tier, rng):
                             yield {"poly": poly_spec(rng, shape, dtype, terms), "options": {"target": target, "writer": writer}}
                 for _ in range(count(tier, 2, 30)):
                     yield {"poly": poly_spec(rng, shape, dtype, terms, retain=rng.random() < 0.2), "options": _io_options(rng, dtype)}
+    # integers that float64 cannot hold, written with %d and read back as integers: the precision of the format is exact
+    for shape in [(), (2,), (2, 2)]:
+        for writer in ("numpoly", "numpy"):
+            for _ in range(count(tier, 2, 12)):
+                s = poly_spec(rng, shape, "int64", rng.randint(1, 3))
+                big = [2 ** 53 + 1, -(2 ** 53) - 1, 2 ** 62 + 5, 9007199254740993, 3]
+                s["coefficients"] = [nested(rng, tuple(shape), big) for _ in s["exponents"]]
+                yield {"poly": s, "options": {"target": rng.choice(TARGETS), "writer": writer, "fmt": "%d", "load_dtype": "int64"}}
     for shape in [(2, 3), (3, 2), (2, 1, 2), (2, 3, 2), (4, 2)]:        # non-C-contiguous storage of >= 2 dimensions
         for layout in LAYOUTS:
             for writer in ("numpoly", "numpy"):
@@ -286,7 +303,8 @@ def gen_text(tier, rng):
             "coefficients that every used format prints exactly (small ints, halves, quarters); writers numpoly.savetxt and numpy.savetxt; "
             "targets str path, pathlib.Path, io.StringIO; fmt %.18e/%d/%g/%.3f/%.6e/%8.2f, delimiters ' ' ',' ';' tab ', ', comments "
             "'# ' '#' '% ' '//', 0-2 extra header lines, footer; loaded array must have the same shape, names and exact values; also "
-            "non-C-contiguous inputs p.T, p.swapaxes(0,-1), p.copy(order='F') of base shapes (2,3), (3,2), (2,1,2), (2,3,2), (4,2), 1-3 terms")
+            "non-C-contiguous inputs p.T, p.swapaxes(0,-1), p.copy(order='F') of base shapes (2,3), (3,2), (2,1,2), (2,3,2), (4,2), 1-3 terms; "
+            "int64 coefficients beyond 2**53 written with %d and loaded with dtype=int64 come back exactly")
 def text_roundtrip(inp):
     import numpoly
     spec = decode(inp["poly"])
